@@ -177,7 +177,17 @@ func c06Reengage(c *Ctx, p *Prog) {
 }
 
 func c06Locks(c *Ctx, p *Prog) {
-	d := newLockDomain(p, p.Tcell, "tScreen")
+	c06LocksOf(c, p, "tScreen")
+	// the Tty implementations have a mutex of their own, shared with the goroutine their Stop joins
+	for _, t := range []string{"devTty", "stdIoTty"} {
+		if p.namedType(p.Tcell, t) != nil {
+			c06LocksOf(c, p, t)
+		}
+	}
+}
+
+func c06LocksOf(c *Ctx, p *Prog, tname string) {
+	d := newLockDomain(p, p.Tcell, tname)
 	d.analyse()
 	// transitive blocking summary: functions that contain a blocking channel op or Wait reachable at lsEntry
 	blocks := map[*ssa.Function]ssa.Instruction{}
@@ -233,7 +243,7 @@ func c06Locks(c *Ctx, p *Prog) {
 		bad := false
 		for _, b := range sum.blocking {
 			bad = true
-			c.Fail("C06-R2", short+":blocking-while-locked", p.pos(b.Pos()), "blocking operation with the screen mutex held: "+b.String())
+			c.Fail("C06-R2", short+":blocking-while-locked", p.pos(b.Pos()), "blocking operation with the "+tname+" mutex held: "+b.String())
 		}
 		for _, call := range sum.calls {
 			if call.state == lsHeld && call.kind != "go" {
